@@ -51,7 +51,7 @@ ASSUMPTIONS = [
     'the reference semaphore in this file only classifies cancellations for the mechanism key; verdicts do not depend on it',
 ]
 SHARDS = {'quick': 1, 'thorough': 16}
-TIMEOUT = {'quick': 300, 'thorough': 900}
+TIMEOUT = {'quick': 900, 'thorough': 900}
 
 
 def FLOORS(tier):
